@@ -1,6 +1,6 @@
 """
 E2: raw typed property graphs as data, loader through the public add_node/add_link calls, and canonical
-snapshots of stored graphs computed from storage.extract_graph (never containing internal integer ids).
+snapshots of stored graphs read directly from the store's networkx structures (never containing internal integer ids).
 
 raw graph description (JSON-able):
     {"nodes": [{"id": str, "cls": str, "props": {name: value}}], "edges": [{"a": i, "b": j, "rel": str,
@@ -89,9 +89,35 @@ def canon_nx(nxg, expect_gid=None):
     return nodes, edges, problems
 
 
+def observe(imp, gid):
+    return observe_storage(imp.storage, gid)
+
+
+def observe_storage(storage, gid):
+    """The nodes of graph gid and the edges among them, read straight from the store's networkx structures (an
+    observer that does not go through the library's own extract_graph and takes no store lock); None when absent."""
+    import networkx as nx
+    held = storage.graphs
+    if isinstance(held, nx.Graph):          # shared store: one graph, members selected by their GraphID property
+        members = [n for n, d in held.nodes(data=True) if d.get(GRAPH_ID) == gid]
+        if not members:
+            return None
+        inside = set(members)
+        out = nx.Graph()
+        for n in members:
+            out.add_node(n, **dict(held.nodes[n]))
+        for a, b, d in held.edges(members, data=True):
+            if a in inside and b in inside:
+                out.add_edge(a, b, **dict(d))
+        return out
+    if gid not in held:                     # per-graph store: a mapping id -> graph (membership test creates nothing)
+        return None
+    return held[gid].copy()
+
+
 def canon(imp, gid, with_gid=False):
     """Canonical snapshot of graph gid in importer imp's store, or None when the graph has no nodes."""
-    nxg = imp.storage.extract_graph(gid)
+    nxg = observe(imp, gid)
     if nxg is None or len(nxg.nodes) == 0:
         return None
     nodes, edges, problems = canon_nx(nxg, expect_gid=gid)
